@@ -179,3 +179,401 @@ Proof.
     apply strip_prefix_spec in E. subst b. rewrite parse_body_scheme in Pb. discriminate.
   - rewrite strip_prefix_app. rewrite Pb. reflexivity.
 Qed.
+
+(* ---------- soundness: whatever is accepted is a sentence of the grammar, with that reading ---------- *)
+Lemma parse_mod_sound s m r : parse_mod s = Some (m, r) ->
+  mod_wf m /\ exists sep, sep_ok sep /\ s = render_mod sep m ++ r.
+Proof.
+  unfold parse_mod. destruct s as [|c r0].
+  - intro H. inversion H. subst. split; [exact I|]. exists COLON. split; [left; reflexivity | reflexivity].
+  - destruct ((c =? COLON) || (c =? HASH)) eqn:E.
+    + destruct (span is_hex r0) as [h r'] eqn:Sp.
+      destruct ((1 <=? length h)%nat && (length h <=? 40)%nat) eqn:L; [|discriminate].
+      intro H. inversion H. subst. apply andb_true_iff in L as [L1 L2].
+      apply Nat.leb_le in L1. apply Nat.leb_le in L2.
+      destruct (span_spec is_hex r0 h r Sp) as [S1 [S2 _]].
+      split; [cbn [mod_wf]; auto|]. exists c. split.
+      * apply orb_true_iff in E as [E | E]; apply N.eqb_eq in E; [left | right]; exact E.
+      * cbn [render_mod app]. congruence.
+    + destruct (c =? DOLLAR) eqn:D.
+      * destruct r0 as [|d r1]; [discriminate|]. destruct (is_digit19 d) eqn:D19; [|discriminate].
+        destruct (span is_digit r1) as [ds r'] eqn:Sp. intro H. inversion H. subst.
+        destruct (span_spec is_digit r1 ds r Sp) as [S1 [S2 _]]. apply N.eqb_eq in D. subst c.
+        split; [cbn [mod_wf]; auto|]. exists COLON. split; [left; reflexivity|].
+        cbn [render_mod app]. congruence.
+      * intro H. inversion H. subst. split; [exact I|]. exists COLON. split; [left; reflexivity | reflexivity].
+Qed.
+
+Lemma parse_claim_sound b s g r : parse_claim b s = Some (g, r) ->
+  exists sep, sep_ok sep /\ (if b then channel_wf g else stream_wf g) /\ s = render_segment sep g ++ r.
+Proof.
+  unfold parse_claim. destruct b.
+  - destruct s as [|c t]; [discriminate|]. destruct (c =? AT) eqn:E; [|discriminate]. apply N.eqb_eq in E. subst c.
+    destruct (span name_char t) as [nm r0] eqn:Sp. destruct nm as [|n0 nm]; [discriminate|].
+    destruct (parse_mod r0) as [[m r']|] eqn:Pm; [|discriminate]. intro H. inversion H. subst.
+    destruct (span_spec name_char t (n0 :: nm) r0 Sp) as [S1 [S2 _]].
+    destruct (parse_mod_sound r0 m r Pm) as [Hm [sep [Hs Hr]]].
+    exists sep. split; [exact Hs|]. split.
+    + split; [|exact Hm]. exists (n0 :: nm). cbn [seg_name]. split; [reflexivity|]. split; [discriminate | exact S2].
+    + rewrite render_segment_eq. cbn [seg_name seg_mod]. rewrite <- app_assoc. rewrite <- Hr. rewrite S1. reflexivity.
+  - destruct (span name_char s) as [nm r0] eqn:Sp. destruct nm as [|n0 nm]; [discriminate|].
+    destruct (parse_mod r0) as [[m r']|] eqn:Pm; [|discriminate]. intro H. inversion H. subst.
+    destruct (span_spec name_char s (n0 :: nm) r0 Sp) as [S1 [S2 _]].
+    destruct (parse_mod_sound r0 m r Pm) as [Hm [sep [Hs Hr]]].
+    exists sep. split; [exact Hs|]. split.
+    + split; [cbn [seg_name]; discriminate|]. split; [exact S2 | exact Hm].
+    + rewrite render_segment_eq. cbn [seg_name seg_mod]. rewrite <- app_assoc. rewrite <- Hr. exact S1.
+Qed.
+
+Lemma parse_body_sound s u : parse_body s = Some u -> body_grammar s u.
+Proof.
+  unfold parse_body.
+  destruct (parse_claim true s) as [[c r]|] eqn:Pc.
+  - destruct (parse_claim_true_head s c r Pc) as [t Ht].
+    assert (Pf : parse_claim false s = None) by (rewrite Ht; apply parse_claim_false_at).
+    destruct (parse_claim_sound true s c r Pc) as [sep1 [Hs1 [Hc Hsr]]].
+    destruct r as [|x r1].
+    + rewrite app_nil_r in Hsr. intro H. inversion H. subst u. exists sep1. auto.
+    + destruct (x =? SLASH) eqn:E.
+      * apply N.eqb_eq in E. subst x.
+        destruct (parse_claim false r1) as [[st r2]|] eqn:Ps.
+        -- destruct r2 as [|y r2].
+           ++ intro H. inversion H. subst u.
+              destruct (parse_claim_sound false r1 st [] Ps) as [sep2 [Hs2 [Hg Hr1]]].
+              rewrite app_nil_r in Hr1. exists sep1, sep2. subst r1. auto 6.
+           ++ rewrite Pf. discriminate.
+        -- rewrite Pf. discriminate.
+      * rewrite Pf. discriminate.
+  - destruct (parse_claim false s) as [[st r]|] eqn:Ps; [|discriminate].
+    destruct r as [|y r]; [|discriminate]. intro H. inversion H. subst u.
+    destruct (parse_claim_sound false s st [] Ps) as [sep [Hs [Hg Hr]]]. rewrite app_nil_r in Hr.
+    exists sep. auto.
+Qed.
+
+Lemma url_parse_sound s u : url_parse s = Some u -> in_grammar s u.
+Proof.
+  unfold url_parse. intro H. apply in_grammar_eq.
+  destruct (strip_prefix scheme s) as [rest|] eqn:E.
+  - apply strip_prefix_spec in E. subst s. destruct (parse_body rest) as [u'|] eqn:Pb.
+    + inversion H. subst u'. exists scheme, rest. split; [right; reflexivity|]. split; [reflexivity|].
+      apply parse_body_sound. exact Pb.
+    + rewrite parse_body_scheme in H. discriminate.
+  - exists [], s. split; [left; reflexivity|]. split; [reflexivity|]. apply parse_body_sound. exact H.
+Qed.
+
+Lemma url_parse_iff s u : url_parse s = Some u <-> in_grammar s u.
+Proof. split; [apply url_parse_sound | apply url_parse_complete]. Qed.
+
+Lemma url_rejects_outside s : (forall u, ~ in_grammar s u) -> url_parse s = None.
+Proof.
+  intro H. destruct (url_parse s) as [u|] eqn:E; [|reflexivity]. exfalso. apply (H u). apply url_parse_sound. exact E.
+Qed.
+
+Lemma in_grammar_wf s u : in_grammar s u -> url_wf u.
+Proof.
+  intros [p [_ H]]. destruct u as [g | c | c g]; cbn [url_wf].
+  - destruct H as [sep [_ [H _]]]. exact H.
+  - destruct H as [sep [_ [H _]]]. exact H.
+  - destruct H as [s1 [s2 [_ [_ [H1 [H2 _]]]]]]. split; assumption.
+Qed.
+
+(* ---------- parse (print u) = u ---------- *)
+Lemma print_in_grammar u : url_wf u -> in_grammar (url_print u) u.
+Proof.
+  intro W. exists scheme. split; [right; reflexivity|]. unfold url_print. destruct u as [g | c | c g]; cbn [url_wf] in W.
+  - exists COLON. split; [left; reflexivity|]. split; [exact W | reflexivity].
+  - exists COLON. split; [left; reflexivity|]. split; [exact W | reflexivity].
+  - destruct W as [Wc Wg]. exists COLON, COLON. split; [left; reflexivity|]. split; [left; reflexivity|].
+    split; [exact Wc|]. split; [exact Wg | reflexivity].
+Qed.
+
+Lemma url_parse_print u : url_wf u -> url_parse (url_print u) = Some u.
+Proof. intro W. apply url_parse_complete. apply print_in_grammar. exact W. Qed.
+
+(* ---------- print (parse s) = canonical spelling of s ---------- *)
+Definition h2c (c : N) : N := if c =? HASH then COLON else c.
+
+Lemma canon_eq s : canon s = (match strip_prefix scheme s with Some _ => [] | None => scheme end) ++ map h2c s.
+Proof. reflexivity. Qed.
+
+Lemma map_h2c_nohash l : ~ In HASH l -> map h2c l = l.
+Proof.
+  induction l as [|c l IH]; intro H; [reflexivity|]. cbn [map]. rewrite IH by (intro X; apply H; right; exact X).
+  unfold h2c. destruct (c =? HASH) eqn:E; [|reflexivity]. apply N.eqb_eq in E. exfalso. apply H. left. exact E.
+Qed.
+
+Lemma class_nohash (p : N -> bool) l : p HASH = false -> forallb p l = true -> ~ In HASH l.
+Proof. intros Hp Hl X. rewrite forallb_forall in Hl. specialize (Hl _ X). congruence. Qed.
+
+Lemma render_canon sep g : sep_ok sep -> ~ In HASH (seg_name g) -> mod_wf (seg_mod g) ->
+  map h2c (render_segment sep g) = print_segment g.
+Proof.
+  intros Hs Hn Hm. rewrite print_segment_eq, !render_segment_eq, map_app, (map_h2c_nohash _ Hn). f_equal.
+  destruct (seg_mod g) as [|h|d]; cbn [render_mod map].
+  - reflexivity.
+  - cbn [mod_wf] in Hm. destruct Hm as [_ Hh].
+    rewrite (map_h2c_nohash h (class_nohash is_hex h eq_refl Hh)). destruct Hs as [-> | ->]; reflexivity.
+  - cbn [mod_wf] in Hm. destruct d as [|d0 ds]; [contradiction|]. destruct Hm as [H0 Hds].
+    change (h2c DOLLAR) with DOLLAR. f_equal. apply map_h2c_nohash. intros [X | X].
+    + subst d0. discriminate H0.
+    + exact (class_nohash is_digit ds eq_refl Hds X).
+Qed.
+
+Lemma stream_nohash g : stream_wf g -> ~ In HASH (seg_name g).
+Proof. intros [_ [H _]]. exact (class_nohash name_char _ eq_refl H). Qed.
+
+Lemma channel_nohash g : channel_wf g -> ~ In HASH (seg_name g).
+Proof.
+  intros [[nm [-> [_ H]]] _] [X | X]; [discriminate X|]. exact (class_nohash name_char _ eq_refl H X).
+Qed.
+
+Lemma body_canon b u : body_grammar b u ->
+  map h2c b = match u with
+              | UStream s => print_segment s
+              | UChannel c => print_segment c
+              | UChannelStream c s => print_segment c ++ SLASH :: print_segment s
+              end.
+Proof.
+  destruct u as [g | c | c g]; cbn [body_grammar].
+  - intros [sep [Hs [Hw ->]]]. apply render_canon; [exact Hs | apply stream_nohash; exact Hw | apply Hw].
+  - intros [sep [Hs [Hw ->]]]. apply render_canon; [exact Hs | apply channel_nohash; exact Hw | apply Hw].
+  - intros [s1 [s2 [H1 [H2 [Hc [Hg ->]]]]]]. rewrite map_app. cbn [map]. change (h2c SLASH) with SLASH.
+    rewrite render_canon; [| exact H1 | apply channel_nohash; exact Hc | apply Hc].
+    rewrite render_canon; [| exact H2 | apply stream_nohash; exact Hg | apply Hg]. reflexivity.
+Qed.
+
+Lemma canon_print s u : in_grammar s u -> canon s = url_print u.
+Proof.
+  intro H. apply in_grammar_eq in H. destruct H as [p [b [Hp [-> Hb]]]].
+  rewrite canon_eq. unfold url_print. destruct Hp as [-> | ->].
+  - cbn [app]. destruct (strip_prefix scheme b) as [rest|] eqn:E.
+    + apply strip_prefix_spec in E. subst b. apply parse_body_complete in Hb. rewrite parse_body_scheme in Hb. discriminate.
+    + f_equal. apply body_canon. exact Hb.
+  - rewrite strip_prefix_app. cbn [app]. rewrite map_app. f_equal. apply body_canon. exact Hb.
+Qed.
+
+Lemma url_print_parse s u : url_parse s = Some u -> url_print u = canon s /\ url_wf u.
+Proof.
+  intro H. apply url_parse_sound in H. split; [symmetry; apply canon_print; exact H | eapply in_grammar_wf; exact H].
+Qed.
+
+(* ---------- rejection of forbidden code points ---------- *)
+Definition soft (c : N) : Prop := hard_forbidden c = false.
+
+Lemma name_soft c : name_char c = true -> soft c.
+Proof. unfold name_char, soft, hard_forbidden. intro H. apply negb_true_iff in H. rewrite H. reflexivity. Qed.
+
+Lemma hex_not_forbidden c : is_hex c = true -> forbidden c = false.
+Proof.
+  unfold is_hex. intro H.
+  assert (E : c = 48 \/ c = 49 \/ c = 50 \/ c = 51 \/ c = 52 \/ c = 53 \/ c = 54 \/ c = 55 \/ c = 56 \/ c = 57 \/
+              c = 97 \/ c = 98 \/ c = 99 \/ c = 100 \/ c = 101 \/ c = 102).
+  { apply orb_true_iff in H as [H | H]; apply andb_true_iff in H as [H1 H2];
+      apply N.leb_le in H1; apply N.leb_le in H2; lia. }
+  repeat (destruct E as [E | E]; [subst c; reflexivity|]). subst c. reflexivity.
+Qed.
+
+Lemma hex_soft c : is_hex c = true -> soft c.
+Proof. intro H. unfold soft, hard_forbidden. rewrite (hex_not_forbidden c H). reflexivity. Qed.
+
+Lemma digit_hex c : is_digit c = true -> is_hex c = true.
+Proof. unfold is_digit, is_hex. intros ->. reflexivity. Qed.
+
+Lemma digit19_digit c : is_digit19 c = true -> is_digit c = true.
+Proof.
+  unfold is_digit19, is_digit. intro H. apply andb_true_iff in H as [H1 H2]. apply N.leb_le in H1.
+  apply andb_true_iff. split; [apply N.leb_le; lia | exact H2].
+Qed.
+
+Lemma forallb_soft (p : N -> bool) l : (forall c, p c = true -> soft c) -> forallb p l = true -> Forall soft l.
+Proof. intros Hp Hl. apply Forall_forall. intros c Hc. rewrite forallb_forall in Hl. apply Hp. apply Hl. exact Hc. Qed.
+
+Lemma mod_soft sep m : sep_ok sep -> mod_wf m -> Forall soft (render_mod sep m).
+Proof.
+  intros Hs Hm. destruct m as [|h|d]; cbn [render_mod].
+  - constructor.
+  - destruct Hm as [_ Hh]. constructor; [destruct Hs as [-> | ->]; reflexivity|]. exact (forallb_soft is_hex h hex_soft Hh).
+  - destruct d as [|d0 ds]; [contradiction|]. destruct Hm as [H0 Hds]. constructor; [reflexivity|].
+    constructor; [apply hex_soft, digit_hex, digit19_digit; exact H0|].
+    apply (forallb_soft is_digit ds); [intros c Hc; apply hex_soft, digit_hex; exact Hc | exact Hds].
+Qed.
+
+Lemma stream_soft sep g : sep_ok sep -> stream_wf g -> Forall soft (render_segment sep g).
+Proof.
+  intros Hs [_ [Hn Hm]]. rewrite render_segment_eq. apply Forall_app. split.
+  - exact (forallb_soft name_char _ name_soft Hn).
+  - apply mod_soft; assumption.
+Qed.
+
+Lemma channel_soft sep g : sep_ok sep -> channel_wf g -> Forall soft (render_segment sep g).
+Proof.
+  intros Hs [[nm [Hname [_ Hn]]] Hm]. rewrite render_segment_eq, Hname. apply Forall_app. split.
+  - constructor; [reflexivity|]. exact (forallb_soft name_char _ name_soft Hn).
+  - apply mod_soft; assumption.
+Qed.
+
+Lemma scheme_soft : Forall soft scheme.
+Proof. repeat constructor. Qed.
+
+Lemma grammar_soft s u : in_grammar s u -> Forall soft s.
+Proof.
+  intro H. apply in_grammar_eq in H. destruct H as [p [b [Hp [-> Hb]]]]. apply Forall_app. split.
+  - destruct Hp as [-> | ->]; [constructor | exact scheme_soft].
+  - destruct u as [g | c | c g]; cbn [body_grammar] in Hb.
+    + destruct Hb as [sep [Hs [Hw ->]]]. apply stream_soft; assumption.
+    + destruct Hb as [sep [Hs [Hw ->]]]. apply channel_soft; assumption.
+    + destruct Hb as [s1 [s2 [H1 [H2 [Hc [Hg ->]]]]]]. apply Forall_app. split; [apply channel_soft; assumption|].
+      constructor; [reflexivity | apply stream_soft; assumption].
+Qed.
+
+(* any string that contains, anywhere, a forbidden code point other than : # $ / @ is refused *)
+Lemma url_rejects_forbidden s c : In c s -> hard_forbidden c = true -> url_parse s = None.
+Proof.
+  intros Hin Hc. destruct (url_parse s) as [u|] eqn:E; [|reflexivity]. exfalso.
+  apply url_parse_sound, grammar_soft in E. rewrite Forall_forall in E. specialize (E c Hin). unfold soft in E. congruence.
+Qed.
+
+Lemma url_rejects_trailing s c : hard_forbidden c = true -> url_parse (s ++ [c]) = None.
+Proof. intro H. apply (url_rejects_forbidden _ c); [apply in_or_app; right; left; reflexivity | exact H]. Qed.
+
+Lemma url_rejects_trailing_newline s : url_parse (s ++ [10]) = None.
+Proof. apply url_rejects_trailing. reflexivity. Qed.
+
+(* a name may not contain ANY forbidden code point, the structural ones included: a stream name is a
+   maximal run of allowed code points *)
+Lemma grammar_names_allowed s u : in_grammar s u ->
+  match u with
+  | UStream g => forallb name_char (seg_name g) = true
+  | UChannel c => forallb name_char (tl (seg_name c)) = true
+  | UChannelStream c g => forallb name_char (tl (seg_name c)) = true /\ forallb name_char (seg_name g) = true
+  end.
+Proof.
+  intro H. apply in_grammar_wf in H. destruct u as [g | c | c g]; cbn [url_wf] in H.
+  - apply H.
+  - destruct H as [[nm [-> [_ H]]] _]. exact H.
+  - destruct H as [[[nm [-> [_ H]]] _] [_ [Hg _]]]. split; [exact H | exact Hg].
+Qed.
+
+(* ---------- rejection of malformed modifiers ---------- *)
+Definition claim_id_ok (x : str) : Prop := (1 <= length x <= 40)%nat /\ forallb is_hex x = true.
+Definition amount_ok (x : str) : Prop :=
+  match x with [] => False | d0 :: ds => is_digit19 d0 = true /\ forallb is_digit ds = true end.
+(* c :: x is a modifier introducer followed by text that is not a well-formed modifier body *)
+Definition bad_modifier (c : N) (x : str) : Prop :=
+  (sep_ok c /\ ~ claim_id_ok x) \/ (c = DOLLAR /\ ~ amount_ok x).
+
+Lemma url_parse_scheme b : url_parse (scheme ++ b) = parse_body b.
+Proof.
+  unfold url_parse. rewrite strip_prefix_app. destruct (parse_body b); [reflexivity | apply parse_body_scheme].
+Qed.
+
+Lemma url_parse_noslash b : ~ In SLASH b -> url_parse b = parse_body b.
+Proof.
+  intro H. unfold url_parse. destruct (strip_prefix scheme b) as [rest|] eqn:E; [|reflexivity].
+  apply strip_prefix_spec in E. subst b. exfalso. apply H. apply in_or_app. left. cbn. tauto.
+Qed.
+
+Lemma parse_mod_bad c x m r : ~ In SLASH x -> bad_modifier c x -> parse_mod (c :: x) = Some (m, r) ->
+  exists y t, r = y :: t /\ y <> SLASH.
+Proof.
+  intros Hx Hbad. cbn [parse_mod]. destruct Hbad as [[Hs Hbad] | [-> Hbad]].
+  - replace ((c =? COLON) || (c =? HASH)) with true by (destruct Hs as [-> | ->]; reflexivity).
+    destruct (span is_hex x) as [h r'] eqn:Sp.
+    destruct ((1 <=? length h)%nat && (length h <=? 40)%nat) eqn:L; [|discriminate].
+    intro H. inversion H. subst. destruct (span_spec is_hex x h r Sp) as [S1 [S2 _]].
+    destruct r as [|y t].
+    + exfalso. apply Hbad. rewrite app_nil_r in S1. subst x. apply andb_true_iff in L as [L1 L2].
+      apply Nat.leb_le in L1. apply Nat.leb_le in L2. split; [split; assumption | exact S2].
+    + exists y, t. split; [reflexivity|]. intro E. apply Hx. rewrite S1, E. apply in_or_app. right. left. reflexivity.
+  - change ((DOLLAR =? COLON) || (DOLLAR =? HASH)) with false. change (DOLLAR =? DOLLAR) with true. cbn iota.
+    destruct x as [|d r1]; [discriminate|]. destruct (is_digit19 d) eqn:D; [|discriminate].
+    destruct (span is_digit r1) as [ds r'] eqn:Sp. intro H. inversion H. subst.
+    destruct (span_spec is_digit r1 ds r Sp) as [S1 [S2 _]].
+    destruct r as [|y t].
+    + exfalso. apply Hbad. rewrite app_nil_r in S1. subst r1. split; assumption.
+    + exists y, t. split; [reflexivity|]. intro E. apply Hx. right. rewrite S1, E. apply in_or_app. right. left. reflexivity.
+Qed.
+
+Lemma bad_modifier_stops c x : bad_modifier c x -> name_char c = false.
+Proof. intros [[[-> | ->] _] | [-> _]]; reflexivity. Qed.
+
+Lemma parse_claim_eval_false nm c x : nm <> [] -> forallb name_char nm = true -> name_char c = false ->
+  parse_claim false (nm ++ c :: x) =
+  match parse_mod (c :: x) with
+  | Some (m, r') => Some ({| seg_name := nm; seg_mod := m |}, r')
+  | None => None
+  end.
+Proof.
+  intros Hne Hn Hc. unfold parse_claim. rewrite (span_app name_char nm (c :: x) Hn Hc).
+  destruct nm as [|n0 nm']; [contradiction | reflexivity].
+Qed.
+
+Lemma parse_claim_eval_true nm c x : nm <> [] -> forallb name_char nm = true -> name_char c = false ->
+  parse_claim true (AT :: nm ++ c :: x) =
+  match parse_mod (c :: x) with
+  | Some (m, r') => Some ({| seg_name := AT :: nm; seg_mod := m |}, r')
+  | None => None
+  end.
+Proof.
+  intros Hne Hn Hc. unfold parse_claim. change (AT =? AT) with true. cbn iota.
+  rewrite (span_app name_char nm (c :: x) Hn Hc).
+  destruct nm as [|n0 nm']; [contradiction | reflexivity].
+Qed.
+
+Lemma parse_body_bad_stream nm c x : nm <> [] -> forallb name_char nm = true -> ~ In SLASH x -> bad_modifier c x ->
+  parse_body (nm ++ c :: x) = None.
+Proof.
+  intros Hne Hn Hx Hbad. pose proof (bad_modifier_stops c x Hbad) as Hc. unfold parse_body.
+  assert (Ht : parse_claim true (nm ++ c :: x) = None).
+  { apply parse_claim_true_not_at. intros t E. destruct nm as [|n0 nm']; [contradiction|].
+    cbn [forallb] in Hn. apply andb_true_iff in Hn as [Hn0 _]. cbn [app] in E. inversion E. subst n0. discriminate Hn0. }
+  rewrite Ht. rewrite (parse_claim_eval_false nm c x Hne Hn Hc).
+  destruct (parse_mod (c :: x)) as [[m r]|] eqn:Pm; [|reflexivity].
+  destruct (parse_mod_bad c x m r Hx Hbad Pm) as [y [t [-> _]]]. reflexivity.
+Qed.
+
+Lemma parse_body_bad_channel nm c x : nm <> [] -> forallb name_char nm = true -> ~ In SLASH x -> bad_modifier c x ->
+  parse_body (AT :: nm ++ c :: x) = None.
+Proof.
+  intros Hne Hn Hx Hbad. pose proof (bad_modifier_stops c x Hbad) as Hc. unfold parse_body.
+  rewrite (parse_claim_eval_true nm c x Hne Hn Hc). rewrite parse_claim_false_at.
+  destruct (parse_mod (c :: x)) as [[m r]|] eqn:Pm; [|reflexivity].
+  destruct (parse_mod_bad c x m r Hx Hbad Pm) as [y [t [-> Hy]]].
+  replace (y =? SLASH) with false by (symmetry; apply N.eqb_neq; exact Hy). reflexivity.
+Qed.
+
+Lemma noslash_body pre nm c x : (pre = [] \/ pre = [AT]) -> forallb name_char nm = true -> name_char c = false ->
+  c <> SLASH -> ~ In SLASH x -> ~ In SLASH (pre ++ nm ++ c :: x).
+Proof.
+  intros Hpre Hn Hc Hcs Hx X. apply in_app_or in X as [X | X].
+  - destruct Hpre as [-> | ->]; [exact X|]. destruct X as [X | X]; [discriminate X | exact X].
+  - apply in_app_or in X as [X | X].
+    + rewrite forallb_forall in Hn. specialize (Hn _ X). discriminate Hn.
+    + destruct X as [X | X]; [exact (Hcs X) | exact (Hx X)].
+Qed.
+
+(* a stream or channel URL, with or without scheme, whose modifier text is malformed is refused *)
+Lemma url_rejects_bad_modifier p pre nm c x :
+  scheme_opt p -> (pre = [] \/ pre = [AT]) -> nm <> [] -> forallb name_char nm = true ->
+  ~ In SLASH x -> bad_modifier c x ->
+  url_parse (p ++ pre ++ nm ++ c :: x) = None.
+Proof.
+  intros Hp Hpre Hne Hn Hx Hbad.
+  assert (Hb : parse_body (pre ++ nm ++ c :: x) = None).
+  { destruct Hpre as [-> | ->]; cbn [app].
+    - apply parse_body_bad_stream; assumption.
+    - apply parse_body_bad_channel; assumption. }
+  destruct Hp as [-> | ->].
+  - cbn [app]. rewrite url_parse_noslash; [exact Hb|].
+    apply noslash_body; try assumption.
+    + eapply bad_modifier_stops. exact Hbad.
+    + destruct Hbad as [[[-> | ->] _] | [-> _]]; discriminate.
+  - rewrite url_parse_scheme. exact Hb.
+Qed.
+
+Lemma bad_modifier_inhabited : bad_modifier 58 [103] /\ bad_modifier 36 [48].
+Proof.
+  split.
+  - left. split; [left; reflexivity|]. intros [_ H]. discriminate H.
+  - right. split; [reflexivity|]. intros [H _]. discriminate H.
+Qed.
